@@ -56,6 +56,17 @@ Definition lex_hex (pfx s : string) : scan_res :=
   | EmptyString => SErr 6 pfx
   end.
 
+(* the digits of the exponent: a single '0', or 1..9 followed by digits *)
+Definition lex_exp_digits (acc2 s2 : string) : scan_res :=
+  match s2 with
+  | String d s3 =>
+      if is_c 48 d then follow_num TFloat 5 (acc2 ++ "0") s3
+      else if is_num d then
+        let (ds, s4) := span is_num s3 in follow_num TFloat 5 (acc2 ++ String d ds) s4
+      else SErr 4 acc2
+  | EmptyString => SErr 4 acc2
+  end.
+
 (* the `if r == 'e' || r == 'E'` block and the final follow check of lexNum *)
 Definition lex_exp (plus : bool) (k : tkind) (acc s : string) : scan_res :=
   match s with
@@ -69,14 +80,7 @@ Definition lex_exp (plus : bool) (k : tkind) (acc s : string) : scan_res :=
               else (acc1, s1)
           | EmptyString => (acc1, s1)
           end in
-        match s2 with
-        | String d s3 =>
-            if is_c 48 d then follow_num TFloat 5 (acc2 ++ "0") s3
-            else if is_num d then
-              let (ds, s4) := span is_num s3 in follow_num TFloat 5 (acc2 ++ String d ds) s4
-            else SErr 4 acc2
-        | EmptyString => SErr 4 acc2
-        end
+        lex_exp_digits acc2 s2
       else follow_num k 5 acc s
   | EmptyString => follow_num k 5 acc s
   end.
